@@ -10,16 +10,20 @@ LEVEL_TEXT = ("Every output of the real solvers (vpsc::IncSolver, Avoid::IncSolv
               "IncSolver has proved post-conditions (satisfy_post, solve_post, flag_complete: for all states/histories) "
               "and is tied to the code by margin-guarded exact correspondence of positions, flags, active sets, "
               "return values.")
-LEVEL_NOTE = ("Not claimed as 'proof': (a) the theorems about the solver are theorems about the hand-written model; "
-              "the C++ is tied to it by sampled correspondence only; (b) block_inv (active constraints = tight spanning "
-              "trees over all solver steps) is proved for the merge step only (block_inv_merge_*_partial); the "
-              "consequence 'unflagged equalities hold exactly' is therefore validated per run by checkPost, not proved "
-              "of the model; (c) flag_sound (flagged => infeasible, inequality-only) is validated per run through the "
-              "certified feasibility checker, not proved of the model; (d) 'no positive cycle => feasible' "
-              "(completeness of Check.feasible, i.e. it never answers unknown) is not proved - every run obtains one "
-              "of the two certificates, an 'unknown' would be reported; (e) the static Solver "
-              "(mergeLeft/mergeRight/pairing heaps) is not modelled, only its outputs are checked, and only on "
-              "inequality DAGs (its documented domain).")
+LEVEL_NOTE = ("Not claimed as 'proof': (a) the theorems about the solver are theorems about the hand-written Rat model; "
+              "the C++ is tied to it by sampled, margin-guarded correspondence only; (b) block_inv (active constraints "
+              "= tight spanning trees, over all solver steps) is proved preserved by the merge step only "
+              "(block_inv_merge_preserved_partial and the two pieces), not by split/splitBetween; the driver evaluates "
+              "the invariant (St.invOk, eqActive) on every model state after each call instead; consequently "
+              "'unflagged equalities hold exactly' is validated per run by checkPost (two-sided), not proved of the "
+              "model; (c) flag_sound (flagged => infeasible, inequality-only) is proved for the flagging step under the "
+              "invariant as hypothesis (flag_sound_path_partial) and validated per run on the real code through the "
+              "certified feasibility checker; (d) Check.feasible is proved sound for both answers and the spec-level "
+              "equivalence Feasible <-> no positive-gap cycle is proved in full, but that the certificate search "
+              "never answers 'unknown' is not proved (an 'unknown' is reported as a broken tie; none observed); "
+              "(e) the static Solver (mergeLeft/mergeRight/pairing heaps) is not modelled, only its outputs are "
+              "checked, and only on unscaled inequality DAGs in the default stream (two genuine defects of the static "
+              "solver - equalities ignored, scaled split - are kept in the separate 'findings' stream).")
 TECHNIQUE = ("Lean 4 theorems (certified Bellman-Ford feasibility checker, post-condition checker, Rat model of "
              "IncSolver with exit-scan post-condition and flag completeness) + correspondence harness on "
              "libvpsc and libavoid's private copy")
@@ -43,8 +47,17 @@ EXPLANATION = ("SPECFAIL: an unflagged constraint violated beyond tolerance, a n
                "> 1e-7*scale.")
 
 
+import os
+
+
 def plan(tier, seed, searching):
-    return [dict(hargs=["--seed", str(seed), "--tier", tier, "--scale", "8" if searching else "1"])]
+    steps = [dict(hargs=["--seed", str(seed), "--tier", tier, "--scale", "8" if searching else "1"])]
+    # Known-defect streams of the static vpsc::Solver (tags static-eq / static-scaled, see the C01
+    # report).  Off by default so that the clean tree is quiet; switch on once the two entries are
+    # in known_findings.json (match on tag) to keep watching them:  VERIF_C01_FINDINGS=1
+    if os.environ.get("VERIF_C01_FINDINGS") == "1":
+        steps.append(dict(hargs=["--seed", str(seed), "--tier", tier, "--mode", "findings"], label="findings"))
+    return steps
 
 
 def only_args(hargs, k):
